@@ -35,6 +35,8 @@ INVALID_TEXTS = [
     "def 0 { if ($A == 1) { b(); } ~nomacro(); end; }",
     'import "./gone.exps";\ndef 0 { a(); end; }',
     "def 0 { message_SwitchTalk ($A) { case 1: a(); } end; }",
+    "//?: is-ssb-script: true\ndef 0 {\n    a(;\n}\n",
+    "//?: is-ssb-script: true\ndef 0 {\n    a();\n    Jump(@nowhere);\n}\n",
 ]
 
 
@@ -149,7 +151,7 @@ def make_pool(pool_seed: int, sizes=("small", "small", "medium", "medium", "larg
                 imps.append(text)
         w.vfs.write(alt, macrolib.render_file(lib, main_macros, imps, w.variant_of, True))
         texts.append({"kind": "exps-imports", "src": None, "file": alt, "lookup": w.lookup})
-    for t in rng.sample(INVALID_TEXTS, 2):
+    for t in rng.sample(INVALID_TEXTS, 3):
         texts.append({"kind": "invalid", "src": t, "file": "/proj/SCRIPT/bad.exps"})
     vfs = w.vfs
     for t in texts:
@@ -160,7 +162,14 @@ def make_pool(pool_seed: int, sizes=("small", "small", "medium", "medium", "larg
         o = sut.decompile_ssbs(copy.deepcopy(d))
         if "ok" in o:
             ssbs.append(o["ok"]["text"])
-    return {"texts": texts, "docs": docs, "ssbs": ssbs, "vfs": vfs.dump(), "cli": [cli_json_of(d) for d in docs], "families": families}
+    # the project as it is while somebody is editing it: one imported macro file temporarily imports a file that is gone
+    broken = Vfs.load(vfs.dump())
+    libs = [p for p in w.files if p != list(w.files)[0]]
+    if libs:
+        victim = rng.choice(libs)
+        broken.write(victim, 'import "./not_there_yet.exps";\n' + vfs.nodes[victim][1].decode())
+    return {"texts": texts, "docs": docs, "ssbs": ssbs, "vfs": vfs.dump(), "cli": [cli_json_of(d) for d in docs], "families": families,
+            "vfs_variants": [vfs.dump(), broken.dump()]}
 
 
 # ---- the simulated process ------------------------------------------------------------------------------
@@ -211,9 +220,10 @@ class AddressAllocator:
 class Proc:
     """State of the simulated long-lived process."""
 
-    def __init__(self, pool: dict, run_seed: int, segment: int):
+    def __init__(self, pool: dict, run_seed: int, segment: int, version: int = 0):
         self.pool = pool
-        self.vfs = Vfs.load(pool["vfs"]).install()
+        self.version = version
+        self.vfs = Vfs.load(pool.get("vfs_variants", [pool["vfs"]])[version]).install()
         self.compilers: dict = {}
         self.shared: dict = {}  # doc index -> (infos, coros, rops) objects reused by `share` ops
         self.held: list = []
@@ -295,7 +305,10 @@ def do_op(P: Proc, op: dict) -> dict:
         except Exception as e:
             if slot is not None:
                 P._failed_slots.add(slot)
-            return {"digest": model.failure_digest(e)}
+            dg = model.failure_digest(e)
+            # what a caller can read from the object after the failure is part of what the call "gives"
+            dg["readable_results"] = [a for a in ("routine_ops", "routine_infos", "named_coroutines", "source_map") if getattr(c, a, None) is not None]
+            return {"digest": dg}
         if slot is not None:
             P._failed_slots.discard(slot)
         return {"digest": model.compile_digest(c)}
@@ -374,11 +387,11 @@ def _first_diff(a: dict, b: dict) -> str:
 EXC = {"KeyboardInterrupt": KeyboardInterrupt, "MemoryError": MemoryError, "RecursionError": RecursionError, "AssertionError": AssertionError}
 
 
-def run_segment(pool: dict, ops: list, run_seed: int, segment: int) -> list:
+def run_segment(pool: dict, ops: list, run_seed: int, segment: int, version: int = 0) -> list:
     """One simulated process executing a list of ops; returns one record per op."""
     sut.quiet_logging()
     trace.all_repo_codes()
-    P = Proc(pool, run_seed, segment)
+    P = Proc(pool, run_seed, segment, version)
     recs = []
     armed = None
     for n, op in enumerate(ops):
@@ -404,6 +417,12 @@ def run_segment(pool: dict, ops: list, run_seed: int, segment: int) -> list:
             armed = op
             recs.append({"n": n, "k": k})
             continue
+        if k == "E":
+            # the files on disk change between calls (an imported file is broken / repaired by its author)
+            P.version = op["v"]
+            P.vfs.nodes = Vfs.load(pool["vfs_variants"][op["v"]]).nodes
+            recs.append({"n": n, "k": k})
+            continue
         if armed is not None:
             exc = EXC[armed["exc"]]("simkit: injected")
             cp = trace.CrashPoint(armed["kind"], armed["at"], exc)
@@ -420,15 +439,16 @@ def run_segment(pool: dict, ops: list, run_seed: int, segment: int) -> list:
             out = do_op(P, op)
             rec = {"n": n, "k": k, "op": op, "faulted": False, "digest": out["digest"], "extra": out.get("extra", {})}
         rec["cache_entries"] = P.cache_entries()
+        rec["ver"] = P.version
         recs.append(rec)
     recs.append({"probes": P.probes, "alloc": P.alloc.stats, "cache_entries_end": P.cache_entries()})
     return recs
 
 
-def reference(pool: dict, op: dict) -> dict:
+def reference(pool: dict, op: dict, version: int = 0) -> dict:
     """The same op alone in a pristine process (fault-free); also counts the crash-point events it offers."""
     sut.quiet_logging()
-    P = Proc(pool, 0, 0)
+    P = Proc(pool, 0, 0, version)
     P.alloc.mode = "real"
     counts = {}
     out = do_op(P, {k: v for k, v in op.items() if k not in ("share", "hold")})
@@ -447,10 +467,10 @@ def reference_count(pool: dict, op: dict, kind: str) -> int:
 # ---- histories --------------------------------------------------------------------------------------------
 
 
-def op_key(op: dict) -> str:
+def op_key(op: dict, ver: int = 0) -> str:
     k = op["k"]
     if k == "C":
-        return f"C{op['i']}"
+        return f"C{op['i']}" + (f"@v{ver}" if ver else "")
     if k == "SC":
         return f"SC{op['i']}"
     return f"{k}{op['j']}"
@@ -497,15 +517,28 @@ def gen_history(pool: dict, rng: random.Random, knobs: dict) -> list:
                 ops.append({"k": "C", "i": rng.randrange(nt), "slot": rng.choice([None, 0, 0, 1])})
         elif k == "RESTART":
             ops.append({"k": "RESTART"})
+        elif k == "E" and len(pool.get("vfs_variants", [])) > 1:
+            cur_v = next((o["v"] for o in reversed(ops) if o["k"] == "E"), 0)
+            ops.append({"k": "E", "v": 1 - cur_v})
+            # an edit is only interesting with a compile of a script of the project around it
+            proj = [i for i, t in enumerate(pool["texts"]) if t["kind"] == "exps-imports"]
+            if proj:
+                ops.append({"k": "C", "i": rng.choice(proj), "slot": rng.choice([0, 0, 1])})
     # faults without workload test nothing: make sure the history ends with real work after the last fault
     if nd:
         ops.append({"k": "D", "j": pick_doc(), "share": rng.random() < 0.5})
+    if any(o["k"] == "E" for o in ops):
+        proj = [i for i, t in enumerate(pool["texts"]) if t["kind"] == "exps-imports"]
+        if next((o["v"] for o in reversed(ops) if o["k"] == "E"), 0) == 1:
+            ops.append({"k": "E", "v": 0})  # the author repairs the file
+        if proj:
+            ops.append({"k": "C", "i": rng.choice(proj), "slot": 0})
     ops.append({"k": "C", "i": rng.randrange(nt), "slot": 0})
     return ops
 
 
 def history_knobs(rng: random.Random) -> dict:
-    w = {"C": 4, "D": 5, "S": 2, "J": 2, "SC": 1, "G": 2, "R": 1, "A": 1, "L": 1, "X": 3, "RESTART": 1}
+    w = {"C": 4, "D": 5, "S": 2, "J": 2, "SC": 1, "G": 2, "R": 1, "A": 1, "L": 1, "X": 3, "RESTART": 1, "E": 2}
     for k in list(w):
         if k not in ("C", "D") and rng.random() < 0.3:
             w[k] = 0  # swarm: disable some kinds for this history
@@ -534,7 +567,7 @@ def judge_history(recs_by_segment: list, refs: dict) -> list:
         for r in recs:
             if "k" not in r or r["k"] not in ("C", "D", "S", "J", "SC"):
                 continue
-            ref = refs[op_key(r["op"])]
+            ref = refs[op_key(r["op"], r.get("ver", 0))]
             if r.get("faulted") and r.get("fired"):
                 continue  # the faulted op itself may raise or degrade; everything after it is checked
             got = r["digest"]
@@ -573,10 +606,25 @@ def split_segments(ops: list) -> list[list]:
     return [s for s in segs if s]
 
 
+def versions_of(ops: list) -> list[int]:
+    """File-system version in force at each op (E ops change it; a restart does not: files stay on disk)."""
+    v = 0
+    out = []
+    for op in ops:
+        if op["k"] == "E":
+            v = op["v"]
+        out.append(v)
+    return out
+
+
 def run_history(pool: dict, ops: list, run_seed: int, refs: dict) -> tuple[list, list]:
     recs = []
+    ver = 0
     for si, seg in enumerate(split_segments(ops)):
-        recs.append(forkrun(run_segment, pool, seg, run_seed, si, timeout=120))
+        recs.append(forkrun(run_segment, pool, seg, run_seed, si, ver, timeout=120))
+        for op in seg:
+            if op["k"] == "E":
+                ver = op["v"]
     return recs, judge_history(recs, refs)
 
 
@@ -606,12 +654,13 @@ def run_item(item: dict) -> dict:
     refs = {}
     counts = {}
     for hs, ops in hists:
+        vers = versions_of(ops)
         for i, op in enumerate(ops):
             if op["k"] not in ("C", "D", "S", "J", "SC"):
                 continue
-            key = op_key(op)
+            key = op_key(op, vers[i])
             if key not in refs:
-                refs[key] = forkrun(reference, pool, op, timeout=300)
+                refs[key] = forkrun(reference, pool, op, vers[i], timeout=300)
                 res["processes"] += 1
                 ex = refs[key].get("extra") or {}
                 if ex.get("input_changed"):
@@ -619,7 +668,7 @@ def run_item(item: dict) -> dict:
                                               "history": [op], "n": 0, "op": op, "detail": ex["input_changed"], "pool_seed": pool_seed, "run_seed": hs})
             prev = ops[i - 1] if i > 0 else None
             if prev is not None and prev["k"] == "X":
-                c = counts.setdefault(key, {})
+                c = counts.setdefault(op_key(op), {})
                 if prev["kind"] not in c:
                     c[prev["kind"]] = forkrun(reference_count, pool, op, prev["kind"], timeout=300)
                     res["processes"] += 1
@@ -661,6 +710,8 @@ def _brief(o: dict) -> str:
         return f"A({o['mode']})"
     if k == "L":
         return f"L({o['level']})"
+    if k == "E":
+        return f"E(files v{o['v']})"
     return k
 
 
@@ -700,13 +751,24 @@ def minimise(pool: dict, ops: list, run_seed: int, refs: dict, sig: dict, budget
     return cur
 
 
+def all_refs(pool: dict, ops: list) -> dict:
+    """References for every operation of a history, under every file-system version the history (or a shortened
+    version of it) can put it in."""
+    refs = {}
+    vers = [0, 1] if any(o["k"] == "E" for o in ops) else [0]
+    for op in ops:
+        if op["k"] not in ("C", "D", "S", "J", "SC"):
+            continue
+        for v in (vers if op["k"] == "C" else [0]):
+            if op_key(op, v) not in refs:
+                refs[op_key(op, v)] = forkrun(reference, pool, op, v, timeout=300)
+    return refs
+
+
 def replay(payload: dict) -> dict:
     pool = payload["pool"]
-    refs = {}
     ops = payload["history"]
-    for op in ops:
-        if op["k"] in ("C", "D", "S", "J", "SC") and op_key(op) not in refs:
-            refs[op_key(op)] = forkrun(reference, pool, op, timeout=300)
+    refs = all_refs(pool, ops)
     for k, v in refs.items():
         ex = v.get("extra") or {}
         if ex.get("input_changed") and payload["signature"]["clause"] == "decompilation-does-not-alter-its-input":
@@ -856,9 +918,7 @@ def check(rep, tier: str, master: int, only_idx=None) -> None:
         ops = v["history"]
         refs = {}
         try:
-            for op in ops:
-                if op["k"] in ("C", "D", "S", "J", "SC") and op_key(op) not in refs:
-                    refs[op_key(op)] = forkrun(reference, pool, op, timeout=300)
+            refs = all_refs(pool, ops)
             if v["sig"]["clause"] == "same-result-whatever-came-before":
                 ops = minimise(pool, ops, v["run_seed"], refs, v["sig"])
         except HarnessError as e:
